@@ -178,6 +178,17 @@ def build(run):
         yield "traced: sum_a (sum_k K_ak J_ka) g_a", lambda m, t, g: S(C.Product(S(C.Product(X(C.JacobianInverse(m), a, k), X(C.Jacobian(m), k, a)), k), U("g", (t,), a)), a)
         yield "traced: sum_a I_aa g_a h_a", lambda m, t, g: S(C.Product(C.Product(X(C.Identity(t), a, a), U("g", (t,), a)), U("h", (t,), a)), a)
         yield "traced: sum_a sum_j I_aa g_j h_j", lambda m, t, g: S(S(C.Product(C.Product(X(C.Identity(t), a, a), U("g", (t,), j)), U("h", (t,), j)), j), a)
+        # a Zero that carries the contracted index next to another free index of a DIFFERENT extent (a vanishing branch of a conditional): after the
+        # substitution every free index keeps its own extent, whichever way the renamed index sorts among the others
+        def zc(m_, *ii_dims):
+            ii = tuple(x for x, _ in ii_dims)
+            z = C.Zero((), tuple(sorted(x.count() for x in ii)), tuple(d for _, d in sorted(((x.count(), d) for x, d in ii_dims))))
+            return C.Conditional(C.LT(Opq("p"), Opq("q")), z, U("G", tuple(d for _, d in ii_dims), *ii))
+        yield "zero branch: I_ak cond(0_kj, G_kj) (k->a sorts after j)", lambda m, t, g: S(C.Product(X(C.Identity(2), a, k), zc(m, (k, 2), (j, 3))), k)
+        yield "zero branch: I_kb cond(0_kj, G_kj) v_j", lambda m, t, g: S(S(C.Product(C.Product(X(C.Identity(2), k, b), zc(m, (k, 2), (j, 3))), U("v", (3,), j)), j), k)
+        yield "zero branch: I_jk cond(0_ak, G_ak) (k->j sorts before a)", lambda m, t, g: S(C.Product(X(C.Identity(3), j, k), zc(m, (a, 2), (k, 3))), k)
+        yield "zero branch: K_ak J_kb cond(0_bj, G_bj)", lambda m, t, g: S(S(C.Product(C.Product(X(C.JacobianInverse(m), a, k), X(C.Jacobian(m), k, b)), zc(m, (b, t), (j, 3 + t))), k), b)
+        yield "zero branch: three free indices 0_{k j b}", lambda m, t, g: S(C.Product(X(C.Identity(2), a, k), zc(m, (k, 2), (j, 3), (b, 4))), k)
         # realistic: grad of a contravariant Piola mapped function contracted: K_ak (J_kb r_b)/detJ ...
         yield "piola-div-like", lambda m, t, g: S(S(C.Product(C.Product(X(C.JacobianInverse(m), a, k), C.Division(X(C.Jacobian(m), k, b), C.JacobianDeterminant(m))), U("r", (t, t), a, b)), b), a) if False else \
             S(S(C.Product(C.Product(X(C.JacobianInverse(m), a, k), X(C.Jacobian(m), k, b)), C.Product(C.Division(C.IntValue(1), C.JacobianDeterminant(m)), U("r", (t, t), a, b))), k), b)
@@ -218,11 +229,12 @@ def build(run):
         for nm, bld in pats:
             ob(f"pipeline/{nm}", mname, bld, ALL)
     # individual traversals on the patterns they match (so a defect masked by a later pass is still seen)
-    for nm, bld in pats[:14]:
-        ob(f"JacobianCanceller/{nm}", "tri2d", bld, [CJ.JacobianCanceller])
-    for nm, bld in pats[14:32]:
-        ob(f"IdentityEliminator/{nm}", "tri2d", bld, [CJ.IdentityEliminator])
     first_recip = [n_ for n_, _ in pats].index("f * (1/f)")
+    for nm, bld in pats[:first_recip]:
+        if nm.startswith(("K_", "J_", "(K_", "sum_", "SHADOW", "zero branch: K_", "piola")):
+            ob(f"JacobianCanceller/{nm}", "tri2d", bld, [CJ.JacobianCanceller])
+        if nm.startswith(("I_", "CAPTURE", "shared", "traced", "zero branch: I_")):
+            ob(f"IdentityEliminator/{nm}", "tri2d", bld, [CJ.IdentityEliminator])
     for nm, bld in pats[first_recip:]:
         ob(f"ReciprocalCanceller/{nm}", "tri2d", bld, [CJ.ReciprocalCanceller])
 
